@@ -106,6 +106,20 @@ func runC09(c *fw.Case) {
 		c.Violate("harness/close", "%v", err)
 		return
 	}
+	// options belong to the reader they were given to. One child process in four (both cases of its chunk) never creates
+	// a verify-on-read reader: it first opens the UNDAMAGED table as a trusted one (SkipHashCheckOnLoad alone), closes it,
+	// and then reads the damaged copies in default mode only — they must be validated at load all the same
+	defaultOnly := (c.Idx/2)%4 == 1
+	if defaultOnly {
+		trusted, terr := sstables.NewSSTableReader(sstables.ReadBasePath(tdir), sstables.ReadWithKeyComparator(skiplist.BytesComparator{}), sstables.SkipHashCheckOnLoad())
+		if terr != nil {
+			c.Violate("sstable/undamaged-table-refused/skip-on-load", "%v", terr)
+			return
+		}
+		_, _ = trusted.Get(kvs[0].k)
+		_ = trusted.Close()
+		c.Obs("tables_read_in_default_mode_only_after_a_trusted_open_in_the_same_process", 1)
+	}
 	dataPath := filepath.Join(tdir, sstables.DataFileName)
 	img, err := os.ReadFile(dataPath)
 	if err != nil {
@@ -166,6 +180,9 @@ func runC09(c *fw.Case) {
 			return
 		}
 		for mode := 0; mode < 2; mode++ {
+			if defaultOnly && mode == 1 {
+				continue
+			}
 			units++
 			func() {
 				mname := "verify-on-load"
